@@ -65,7 +65,13 @@ mod imp {
                 }
             } else if let Some(arr) = a.as_array() {
                 let name = arr.first().and_then(|x| x.as_str()).unwrap_or("");
-                let n = arr.get(1).and_then(|x| x.as_u64()).unwrap_or(0) as usize;
+                // "max" / "big": counts no source can reach (usize::MAX, 2^40)
+                let n = match arr.get(1) {
+                    Some(x) if x.as_str() == Some("max") => usize::MAX,
+                    Some(x) if x.as_str() == Some("big") => 1usize << 40,
+                    Some(x) => x.as_u64().unwrap_or(0) as usize,
+                    None => 0,
+                };
                 match name {
                     "take" => out.push(Ad::Take(n)),
                     "limit" => out.push(Ad::Limit(n)),
@@ -87,7 +93,9 @@ mod imp {
             for a in ads {
                 match a {
                     Ad::Take(n) => {
-                        take = if take < 0 { n as i64 } else { take.min(n as i64) };
+                        // (reported capped: the monitors run on 32-bit integers)
+                        let n = std::cmp::min(n, 1_000_000) as i64;
+                        take = if take < 0 { n } else { take.min(n) };
                     }
                     Ad::Limit(n) => limit = n,
                     _ => {}
@@ -316,7 +324,11 @@ mod imp {
             match rng.below(4) {
                 0 => stack.push(json!("map")),
                 1 => stack.push(json!("enumerate")),
-                2 => stack.push(json!(["take", rng.below(5)])),
+                2 => match rng.below(9) {
+                    0 => stack.push(json!(["take", "max"])),
+                    1 => stack.push(json!(["take", "big"])),
+                    _ => stack.push(json!(["take", rng.below(5)])),
+                },
                 _ => stack.push(json!(["limit", rng.below(4)])),
             }
         }
